@@ -2,8 +2,9 @@
 """RaftWal family: C21 (persisted raft state survives a process crash) and C36 (WAL segment cleanup
 never removes data still needed).  DESIGN.md section 5.
 
-M1  TLC checks spec/RaftWal/RaftWal.tla: the WAL shared by LSM writes and raft records, segment removal
-    by flush / watchdog / recovery, crash anywhere, replay.
+M1  TLC checks spec/RaftWal/RaftWal.tla: the WAL shared by LSM writes and the raft records (entries, hard
+    states, snapshots) of one or two raft groups, segment removal by flush / watchdog / recovery (minimum
+    over the groups' pointers), crash anywhere, replay.
 M2  TLC -simulate generates operation histories of that spec; each is executed on a real DB whose WAL and
     manifest are shared with real engine.WALStorage instances (the DB's own watchdog, gated flush); the
     process is killed after every prefix of the history and at sampled file operations inside it; a second
@@ -33,23 +34,25 @@ def gen_hists(ctx, num, depth, seed):
 
 
 def to_sched(sid, hist):
-    ops, nput, last = [], 0, 0
+    ops, nput = [], 0
     for h in hist:
-        o = h["op"]
+        o, g = h["op"], h.get("g", 1)
         if o == "Put":
             nput += 1
             ops.append({"op": "Put", "k": KEYS[nput % len(KEYS)], "v": "p%d" % nput})
         elif o == "RaftAppend":
             ents = [{"i": h["from"] + j, "t": h["term"]} for j in range(h["n"])]
-            last = ents[-1]["i"]
-            ops.append({"op": "RaftAppend", "g": 1, "ents": ents})
+            ops.append({"op": "RaftAppend", "g": g, "ents": ents})
         elif o == "RaftHS":
-            ops.append({"op": "RaftHS", "g": 1, "term": h["term"], "vote": 1, "commit": h.get("commit", 0)})
+            ops.append({"op": "RaftHS", "g": g, "term": h["term"], "vote": 1, "commit": h.get("commit", 0)})
         elif o == "RaftCompact":
-            ops.append({"op": "RaftCompact", "g": 1, "idx": h["idx"]})
+            ops.append({"op": "RaftCompact", "g": g, "idx": h["idx"]})
+        elif o == "RaftSnap":
+            ops.append({"op": "RaftSnap", "g": g, "idx": h["idx"], "term": h["term"]})
         elif o in ("Rotate", "Flush", "Watchdog"):
             ops.append({"op": o})
-    return {"id": sid, "keys": KEYS, "groups": [1], "sync": True, "ops": ops}
+    groups = sorted({op["g"] for op in ops if "g" in op}) or [1]
+    return {"id": sid, "keys": KEYS, "groups": groups, "sync": True, "ops": ops}
 
 
 def run_point(binp, base, sp, mode, n):
@@ -72,9 +75,9 @@ def to_trace(pid, sched, pt):
     t = [{"e": "Cfg", "prop": pid}]
     for ev in pt["events"]:
         e = ev["e"]
-        if e in ("PutCall", "RaftAppendCall", "RaftHSCall"):
-            t.append({k: v for k, v in ev.items() if k in ("e", "k", "v", "g", "ents", "term", "vote", "commit")})
-        elif e in ("PutRet", "RaftAppendRet", "RaftHSRet"):
+        if e in ("PutCall", "RaftAppendCall", "RaftHSCall", "RaftSnapCall"):
+            t.append({k: v for k, v in ev.items() if k in ("e", "k", "v", "g", "ents", "term", "vote", "commit", "idx")})
+        elif e in ("PutRet", "RaftAppendRet", "RaftHSRet", "RaftSnapRet"):
             t.append({"e": e, "ok": ev["ok"]})
         elif e == "RaftCompact":
             t.append({"e": e, "g": ev["g"], "idx": ev["idx"], "ok": ev["ok"]})
@@ -83,36 +86,65 @@ def to_trace(pid, sched, pt):
     rec = pt["rec"]
     raft = []
     for g in rec.get("raft") or []:
-        raft.append({k: g.get(k) for k in ("g", "open", "term", "vote", "commit", "first", "last", "ents", "disk")})
+        raft.append({k: g.get(k, 0) for k in ("g", "open", "term", "vote", "commit", "first", "last", "si", "st", "ents", "disk")})
     if not raft:
-        raft = [{"g": 1, "open": False, "term": 0, "vote": 0, "commit": 0, "first": 0, "last": 0, "ents": [], "disk": []}]
+        raft = [{"g": g, "open": False, "term": 0, "vote": 0, "commit": 0, "first": 0, "last": 0, "si": 0, "st": 0, "ents": [], "disk": []} for g in sched["groups"]]
     t.append({"e": "Recovered", "open": bool(rec.get("open")), "lsm": rec.get("lsm") or {k: "ERR" for k in sched["keys"]}, "raft": raft})
     return t
 
 
-def gc_witness(pt):
-    """Witness of finding C21-log-gc (RaftWal.tla gcRaft): a WAL segment that received raft records is no
-    longer present after recovery, i.e. it was garbage-collected by flush, watchdog or recovery."""
-    segs = {e["seg"] for e in pt["events"] if e["e"] in ("RaftAppendRet", "RaftHSRet") and e.get("ok")}
+RAFT_RETS = ("RaftAppendRet", "RaftHSRet", "RaftSnapRet")
+
+
+def gc_groups(pt):
+    """Witness of finding C21-log-gc (RaftWal.tla gcRaft), per raft group: the groups for which a WAL segment
+    that received one of THEIR records (entry, hard state or snapshot) is no longer present after recovery,
+    i.e. was garbage-collected by flush, watchdog or recovery."""
     present = {int(re.sub(r"\D", "", f)) for f in (pt["rec"].get("wal_after") or [])}
-    return bool(segs - present)
+    out = set()
+    for e in pt["events"]:
+        if e["e"] in RAFT_RETS and e.get("ok") and e["seg"] not in present:
+            out.add(e["g"])
+    return out
+
+
+def known_gc(pt, want):
+    """A rejected Recovered event is the recorded finding only if, under one of the two readings of the
+    in-flight call, EVERY contradicting item is a raft group one of whose record-bearing segments was
+    garbage-collected. The LSM contents (item 0) or a group that lost no segment are never excused."""
+    if not want:
+        return False
+    sets = [set(int(x) for x in re.findall(r"\d+", m)) for m in re.findall(r"\{([^}]*)\}", want)]
+    gone = gc_groups(pt)
+    return bool(gone) and any(b and b <= gone for b in sets)
 
 
 def run(ctx):
     pid, quick = ctx.pid, ctx.tier == "quick"
-    r = ctx.tlc_or_undecided("RaftWal", "MC_RaftWal_quick.cfg" if quick else "MC_RaftWal.cfg", timeout=2400, coverage=not quick)
-    if r.violated:
-        raise Undecided("M1: RaftWal.tla violates %s\n%s" % (r.violated, r.out[-2000:]))
-    ctx.log("M1: %d generated / %d distinct, depth %d (%.0fs)" % (r.generated, r.distinct, r.depth, r.wall))
-    m1 = r
+    # one group with snapshots (deeper) and two groups sharing the WAL (shallower in quick)
+    m1s = []
+    for cfg in (("MC_RaftWal_quick.cfg", "MC_RaftWal_quick2.cfg") if quick else ("MC_RaftWal.cfg", "MC_RaftWal_2g.cfg")):
+        r = ctx.tlc_or_undecided("RaftWal", cfg, timeout=3000, coverage=not quick, workers=max(2, ctx.workers // 2) if quick else None)
+        if r.violated:
+            raise Undecided("M1: RaftWal.tla violates %s under %s\n%s" % (r.violated, cfg, r.out[-2000:]))
+        ctx.log("M1 %s: %d generated / %d distinct, depth %d (%.0fs)" % (cfg, r.generated, r.distinct, r.depth, r.wall))
+        m1s.append(r)
     hists = gen_hists(ctx, 40 if quick else 400, 9, ctx.seed * 10 + 1) + gen_hists(ctx, 30 if quick else 300, 12, ctx.seed * 10 + 2)
     # prefer histories that exercise segment removal together with raft records
     def score(h):
         ops = [x["op"] for x in h]
-        hs = [x for x in h if x["op"] == "RaftHS"]
-        commit_only = any(a["term"] == b["term"] for a, b in zip(hs, hs[1:]))   # a hard state that only moves the commit index
-        overwrite = any(x["op"] == "RaftAppend" and any(y["op"] == "RaftAppend" and y is not x and y["from"] >= x["from"] for y in h[:h.index(x)]) for x in h)
-        return ("RaftAppend" in ops) + ("Rotate" in ops) + ("Flush" in ops) + ("Watchdog" in ops) + ("RaftCompact" in ops) + ("Put" in ops) + 2 * commit_only + overwrite
+        commit_only = overwrite = False
+        for g in {x.get("g") for x in h if "g" in x}:
+            hs = [x for x in h if x["op"] == "RaftHS" and x["g"] == g]
+            commit_only |= any(a["term"] == b["term"] for a, b in zip(hs, hs[1:]))   # a hard state that only moves the commit index
+            ap = [x for x in h if x["op"] == "RaftAppend" and x["g"] == g]
+            overwrite |= any(y["from"] >= x["from"] for i, x in enumerate(ap) for y in ap[:i])
+        two = len({x.get("g") for x in h if "g" in x}) > 1
+        # a snapshot followed by more raft records of the same group and a segment removal attempt
+        snap_then = any(x["op"] == "RaftSnap" and any(y["op"] in ("RaftAppend", "RaftHS") and y["g"] == x["g"] for y in h[i + 1:])
+                        and any(y["op"] in ("Flush", "Watchdog") for y in h[i + 1:]) for i, x in enumerate(h))
+        return (("RaftAppend" in ops) + ("Rotate" in ops) + ("Flush" in ops) + ("Watchdog" in ops) + ("RaftCompact" in ops) + ("Put" in ops)
+                + 2 * commit_only + overwrite + ("RaftSnap" in ops) + snap_then + two)
     hists.sort(key=lambda h: -score(h))
     ctx.rng.shuffle(hists[: max(10, len(hists) // 2)])
     nsch = 16 if quick else 80
@@ -154,7 +186,7 @@ def run(ctx):
     hits, reported = {}, set()
     for (ti, line, pev, want) in rejected:
         s, pt = results[ti]
-        fid = "%s-log-gc" % pid if (pev["e"] == "Recovered" and pev.get("open") and gc_witness(pt)) else None
+        fid = "%s-log-gc" % pid if (pev["e"] == "Recovered" and pev.get("open") and known_gc(pt, want)) else None
         if fid and fid in known:
             if fid not in hits:
                 ctx.known_finding("%s: %s (e.g. schedule %d crash %s%d)" % (fid, known[fid]["what"], s["id"], pt["mode"], pt["n"]))
@@ -163,29 +195,36 @@ def run(ctx):
             reported.add((s["id"], pt["mode"], pt["n"]))
             rp = ctx.save_replay("violation-s%d-%s%d.json" % (s["id"], pt["mode"], pt["n"]), {"schedule": s, "crash": [pt["mode"], pt["n"]], "trace": traces[ti], "recover": pt["rec"]})
             ctx.violation(rp, "recovered state contradicts what was persisted: %s" % json.dumps(pev)[:400])
-    # negative control
+    # negative control: a corrupted reply must be rejected. C21: a wrong last index. C36: every LSM value
+    # replaced, so the chosen image must hold an acknowledged put (a snapshot may have truncated every entry)
     ctl = None
     for t in traces:
         rec = t[-1]
-        if rec["open"] and rec["raft"][0]["open"] and rec["raft"][0]["last"] > 0:
-            ctl = json.loads(json.dumps(t)); ctl[-1]["raft"][0]["last"] += 1; ctl[-1]["raft"][0]["disk"] = []; ctl[-1]["lsm"] = {k: "zz" for k in ctl[-1]["lsm"]}
-            break
+        if not (rec["open"] and rec["raft"][0]["open"] and rec["raft"][0]["last"] > 0):
+            continue
+        if pid == "C36" and not any(a["e"] == "PutCall" and b["e"] == "PutRet" and b["ok"] for a, b in zip(t, t[1:])):
+            continue
+        ctl = json.loads(json.dumps(t)); ctl[-1]["raft"][0]["last"] += 1; ctl[-1]["raft"][0]["disk"] = []; ctl[-1]["lsm"] = {k: "zz" for k in ctl[-1]["lsm"]}
+        break
     if ctl is None:
         raise Undecided("no crash image with raft entries: schedules too small")
     if not ctx.validate_traces("RaftWalPropTrace", "RaftWalPropTrace.cfg", [ctl]):
         raise Undecided("negative control accepted")
     nontriv = {(s["id"], pt["mode"], pt["n"]) for s, pt in results
                if any(e["e"] == "RaftAppendRet" for e in pt["events"]) and any(e["e"] == "Maint" for e in pt["events"])}
-    removed = sum(1 for s, pt in results if gc_witness(pt))
+    removed = sum(1 for s, pt in results if gc_groups(pt))
+    two_groups = sum(1 for s in scheds if len(s["groups"]) > 1)
+    with_snap = sum(1 for s in scheds if any(o["op"] == "RaftSnap" for o in s["ops"]))
     ctx.evidence("fault_enumeration", {
         "evaluations": len(traces), "distinct_nontrivial": len(nontriv),
         "rule": "one evaluation = (TLC-generated history, crash point): the process is killed after every prefix of the history and at sampled mutating file operations; "
                 "non-trivial = raft records were persisted and at least one rotate/flush/watchdog ran before the crash",
         "samples": [{"schedule": results[0][0], "trace": traces[min(5, len(traces) - 1)]}],
-        "states": m1.distinct, "transitions": m1.generated, "traces_validated_against_impl": len(traces),
+        "states": sum(r.distinct for r in m1s), "transitions": sum(r.generated for r in m1s), "traces_validated_against_impl": len(traces),
+        "schedules": len(scheds), "schedules_with_two_groups": two_groups, "schedules_with_snapshot": with_snap,
         "crash_images_with_gc_of_raft_segment": removed, "mismatches": len(rejected), "known_finding_hits": hits,
-        "m1_coverage_zero": m1.coverage_zero, "negative_control": "rejected as required",
-    }, assumptions=["process crash only", "one raft group per schedule; etcd-raft itself is not exercised (storage layer only)",
+        "m1_coverage_zero": sorted(set(sum((r.coverage_zero or [] for r in m1s), []))), "negative_control": "rejected as required",
+    }, assumptions=["process crash only", "one or two raft groups per schedule; etcd-raft itself is not exercised (storage layer only)",
                     "flush is gated by the harness so that sealed memtables can stay unflushed across watchdog passes"])
 
 
